@@ -241,7 +241,12 @@ def value_alphabet():
     st = np.zeros(3, dtype=[("x", "f8"), ("logL", "f8"), ("it", "i4")])
     st["x"] = [0.5, np.nan, -np.inf]
     st["it"] = [0, 1, -1]
+    st_big = np.zeros(2, dtype=[("x", "f8"), ("count", "i8"), ("ucount", "u8")])
+    st_big["x"] = [0.5, -1.5]
+    st_big["count"] = [2**53 + 1, -(2**62) - 3]
+    st_big["ucount"] = [2**63 + 5, 7]
     return {
+        "structured-array-with-large-integers": st_big,
         "float": 1.5,
         "nan": float("nan"),
         "+inf": float("inf"),
